@@ -395,6 +395,9 @@ class ArgumentParser:
                 ):
                     default_value = kwargs.pop("default")
                     flag_name = option["flags"][0]
+                    # Copy the default: actions extend this list in place.
+                    if isinstance(default_value, list):
+                        default_value = default_value.copy()
                     namespace._passes[flag_name] = default_value
             parser.add_argument(*option["flags"], **kwargs)
 
